@@ -633,7 +633,7 @@ P('C03-A', 'C03'); P('C03-B', 'C03', 'C03.R4')
 P('C04-A', ['C04', 'C08']); P('C04-B', 'C04', 'C04.R1')
 P('C05-A', 'C05', 'C05.R2'); P('C05-B', 'C05', 'C05.R3')
 P('C06-A', 'C06', 'C06.R1')
-P('C07-A', 'C09', 'C09.R1'); P('C07-B', 'C14', 'C14.R1')
+P('C07-A', 'C07', 'C07.R6'); P('C07-B', 'C14', 'C14.R1')
 P('C08-A', 'C08', 'C08.R1'); P('C08-B', 'C08', 'C08.R2')
 P('C09-A', 'C09', 'C09.R3'); P('C09-B', 'C09', 'C09.R1')
 P('C10-A', 'C10', 'C10.R2'); P('C10-B', 'C10', 'C10.R3')
@@ -661,3 +661,14 @@ M('c07-code-returns-first', 'C07', 'C07.R5', AST, "        res = None\n        f
   "        res = None\n        for line in self.lines:\n            value = line.eval(state)\n            if res is None:\n                res = value\n\n        return res")
 B('c07-coercion-rewritten', 'C07', AST, "            if isinstance(op1, str) and not isinstance(op2, str):\n                op2 = str(op2)\n            return op1 + op2",
   "            if isinstance(op1, str) and not isinstance(op2, str):\n                return op1 + str(op2)\n            return op1 + op2")
+
+# ---- C07.R6 slice bounds
+_SL = "        return slice(\n            safe_cast(self.start.eval(state), int),\n            safe_cast(self.stop.eval(state), int),\n            safe_cast(self.step.eval(state), int),\n        )"
+M('c07-slice-truthy-bounds', 'C07', 'C07.R6', AST, _SL,
+  "        a, b, c = self.start.eval(state), self.stop.eval(state), self.step.eval(state)\n        return slice(int(a) if a else None, int(b) if b else None, int(c) if c else None)")
+M('c07-slice-step-uncast', 'C07', 'C07.R6', AST, "            safe_cast(self.step.eval(state), int),\n        )", "            self.step.eval(state),\n        )")
+M('c07-slice-round-bounds', 'C07', 'C07.R6', AST, "            safe_cast(self.stop.eval(state), int),", "            safe_cast(self.stop.eval(state), round),")
+B('c07-slice-comprehension', 'C07', AST, _SL,
+  "        bounds = [part.eval(state) for part in (self.start, self.stop, self.step)]\n        return slice(*(None if b is None else int(b) for b in bounds))")
+B('c07-slice-explicit-none-tests', 'C07', AST, _SL,
+  "        a = self.start.eval(state)\n        b = self.stop.eval(state)\n        c = self.step.eval(state)\n        if a is not None:\n            a = int(a)\n        if b is not None:\n            b = int(b)\n        if c is not None:\n            c = int(c)\n        return slice(a, b, c)")
